@@ -328,7 +328,10 @@ fn run_case(c: &Case, rec: &mut CaseRec) -> Result<(), String> {
                 if source.is_empty() {
                     return Err("skip".into());
                 }
-                SplitMix(c.prior_seed as u64).fill(&mut prior, idx(c.prior_len, source.len()));
+                // device sizes over the whole range below the source length: odd values of the generated number put the
+                // device just below the source (1..=200 bytes short), even values anywhere (monotone map)
+                let size = if c.prior_len % 2 == 1 { source.len() - 1 - ((c.prior_len / 2) as usize % source.len().min(200)) } else { idx(c.prior_len, source.len()) };
+                SplitMix(c.prior_seed as u64).fill(&mut prior, size);
             }
         }
         if out_kind != OutKind::Absent {
@@ -472,9 +475,18 @@ fn case_strategy() -> impl Strategy<Value = Case> {
             1 => Just(ArchKind::RebuildIndexOutOfRange),
         ],
         prop_oneof![3 => Just(None), 1 => Just(Some(true)), 2 => Just(Some(false))],
-        prop_oneof![3 => source_strategy(3, 600), 1 => Just(vec![Seg::Random { n: 700, seed: 5 }])],
+        prop_oneof![
+            3 => source_strategy(3, 600),
+            1 => Just(vec![Seg::Random { n: 700, seed: 5 }]),
+            // sources that END in chunks repeating earlier ones (padding): a zero run in front and a longer one at the end
+            2 => (source_strategy(2, 300), 20u32..300, 40u32..700).prop_map(|(mut s, z0, z1)| {
+                s.insert(0, Seg::Const { b: 0, n: z0 });
+                s.push(Seg::Const { b: 0, n: z1 });
+                s
+            }),
+        ],
         any::<u32>(),
-        prop_oneof![Just(0u16), 1u16..2000],
+        prop_oneof![1 => Just(0u16), 2 => 1u16..2000, 1 => any::<u16>()],
         (l2::cli_chunker_strategy(), hash_len_strategy(8), light_comp_strategy()).prop_map(|(chunker, hash_len, comp)| ArchCfg { chunker, hash_len, comp, buffers: 2 }),
         any::<u16>(),
     )
@@ -487,7 +499,7 @@ impl Prop for C14 {
     }
     fn meta(&self, _tier: Tier) -> Meta {
         Meta {
-            rule: "cases = the real CLI on the matrix {clone local, clone over HTTP, compress} x output {absent, regular file, block device, block device smaller than the source (both via the cfg(oll3_bita_verif) hook)} x flags {neither, --force-create, --seed-output, both} x archive {valid, random bytes, empty file, one flipped header bit, truncated header, valid checksum but no chunker parameters / unknown compression / unknown algorithm / garbage dictionary} x --verify-header {absent, matching, one bit off}, with generated source and pre-existing content. Whether a case is a refusal is decided by the specification table of the property (output exists without overwrite/in-place flag; header mismatch; invalid archive; device too small), not by the exit code. Oracle for refusals: exit != 0, output path content and length unchanged (or still absent for archive/header refusals), no other file in the directory created or changed. Non-trivial = refusal with non-empty pre-existing content; distinct by Blake2 of the canonical case; the matrix cells reached are listed in 'classes'.".into(),
+            rule: "cases = the real CLI on the matrix {clone local, clone over HTTP, compress} x output {absent, regular file, block device, block device smaller than the source — by 1..200 bytes or by any amount — (both via the cfg(oll3_bita_verif) hook)} x flags {neither, --force-create, --seed-output, both} x archive {valid, random bytes, empty file, one flipped header bit, truncated header, valid checksum but no chunker parameters / unknown compression / unknown algorithm / garbage dictionary} x --verify-header {absent, matching, one bit off}, with generated source and pre-existing content. Whether a case is a refusal is decided by the specification table of the property (output exists without overwrite/in-place flag; header mismatch; invalid archive; device too small), not by the exit code. Oracle for refusals: exit != 0, output path content and length unchanged (or still absent for archive/header refusals), no other file in the directory created or changed. Non-trivial = refusal with non-empty pre-existing content; distinct by Blake2 of the canonical case; the matrix cells reached are listed in 'classes'.".into(),
             assumptions: vec!["archives that open correctly but fail later (corrupt chunk data) are not refusals and are outside C14".into(), "header-valid-but-inconsistent dictionaries that panic today (C15 known findings) are not used here".into()],
             ..Meta::default()
         }
